@@ -417,6 +417,7 @@ class Queue:
         self._s.yield_point("put", q=self.name)
         self.items.append(item)
         self.puts += 1
+        self._s.note(item=item)
 
     put_nowait = put
 
@@ -433,7 +434,9 @@ class Queue:
         if intr:
             self._s.note(interrupt=True)
             raise self.interrupt_exc()
-        return self.items.pop(0)
+        item = self.items.pop(0)
+        self._s.note(item=item)
+        return item
 
     def get_nowait(self):
         return self.get(block=False)
@@ -514,10 +517,13 @@ def patched(sched, modules=()):
     `modules` that bound those names directly (from-imports); restore afterwards."""
     sched.created = []
     sched.queues = []
+    sched.semaphores = []
     ThreadK = type("Thread", (Thread,), {"_sched": sched})
 
     def SemK(value=1):
-        return Semaphore(sched, value)
+        sem = Semaphore(sched, value)
+        sched.semaphores.append(sem)
+        return sem
 
     def QueueK(maxsize=0):
         return Queue(sched, maxsize)
